@@ -16,7 +16,7 @@ from vf import history, reader, tables
 from vf.common import CaseResult, Check, Scratch, rng_for
 from vf.interpose import Interposer
 
-HISTORIES = ["clean", "orphan_next", "orphan_equal_older", "orphan_equal_newer", "clean_expired"]
+HISTORIES = ["clean", "orphan_next", "orphan_equal_older_first", "orphan_equal_older_last", "orphan_equal_newer", "clean_expired"]
 OPS = ["load", "create", "append", "gc", "append_lose_again", "create_listfail_once", "create_listfail_persistent", "load_listfail_persistent", "create_scandirfail_listfail_persistent"]
 
 
@@ -86,6 +86,11 @@ def build(hist: str, root: str, ip: Interposer) -> Dict[str, Any]:
             out = h.apply(("append", 1))
             assert out["ok"], out
             h.observe(("append",), True)
+            if hist.startswith("orphan_equal_older"):
+                # the uncommitted file must lose the tie whichever of the two is listed first
+                renamed = orph.split("-")[0] + ("-00000001" if hist.endswith("_first") else "-fffffffe") + ".metadata.json"
+                os.rename(os.path.join(root, "metadata", orph), os.path.join(root, "metadata", renamed))
+                orph = renamed
             now = time.time()
             op = os.path.join(root, "metadata", orph)
             cp = os.path.join(root, "metadata", h.pointers[-1])
